@@ -153,8 +153,10 @@ class Server:
             out.append(m)
 
     # --- lifecycle helpers
-    def initialize(self, diagnostics=True, timeout=90.0):      # generous: a loaded machine starts a debug binary slowly
+    def initialize(self, diagnostics=True, timeout=90.0, capabilities=None):      # generous: a loaded machine starts a debug binary slowly
         caps = {"textDocument": {"publishDiagnostics": {}}} if diagnostics else {}
+        if capabilities is not None:
+            caps = capabilities
         r = self.request("initialize", {"processId": None, "rootUri": None, "capabilities": caps}, timeout=timeout)
         self.notify("initialized", {})
         return r
